@@ -20,7 +20,9 @@ RULE = (
     "ones, complements of the unit messages, alternating patterns, messages solved by construction so that the CRC-8 is "
     "0x00, 0x01, 0x80, 0xFF, ... over eight fixed backgrounds) and Hypothesis-drawn 28-bit messages.  (128,72): zero word, "
     "all-ones, the 72 unit messages, the same deterministic boundary set (checksum solved to 0, 1, 16, 30, 15, 29 over seven "
-    "fixed backgrounds), a directed set built by construction to hit every checksum value 0..30 (eight random octets + one octet "
+    "fixed backgrounds), an 'accumulator extremes' set (constant fill with every octet value, 2-octet periods, all octets in one residue class "
+    "modulo 31 for every residue, every 29/30 and 0/1 residue mixture, prefixes with extreme running CRC-8 remainder, extreme "
+    "row / column weights - inputs that drive the PARTIAL quantities of the computation to their extremes), a directed set built by construction to hit every checksum value 0..30 (eight random octets + one octet "
     "solved for the target; all-0xFF / carry-heavy octets) and Hypothesis-drawn 72-bit messages.  containers: the same messages (all 2^11 x both parities for (32,11); basis + boundary + Hypothesis-drawn for the other two) "
     "held in a little-endian bitarray / frozenbitarray of either endianness.  linearity: Hypothesis "
     "pairs (a,b) per code.  A case is (code, message[, parity]); distinct by hash.  Non-trivial: non-zero message; for "
@@ -545,6 +547,98 @@ def _boundary(code, ctx: Ctx):
     return uniq
 
 
+def _accumulator_extremes(code, ctx: Ctx):
+    """Extreme INTERMEDIATE values: inputs that drive every partial quantity of the reference computation (octet sum and its
+    per-octet residues for CS5, the running CRC-8 remainder, row and column weights of the matrix) to its extremes - not
+    only the final value.  Deterministic except for the seeded choice among equivalent octets.
+      (a) constant fill with EVERY octet value 0..255, and 2-octet periods over a fixed set of octets + seeded pairs;
+      (b) (128,72): all nine octets in the same residue class modulo 31, for every residue 0..30 (several seeded choices of
+          the octets), every mixture of the two largest residues 29 / 30 over the nine positions, and of the two smallest;
+          octets just below / at / above multiples of 31; maximal octet sum with each single octet lowered;
+          (68,28): prefixes of 8 / 16 / 20 / 24 bits whose running CRC-8 remainder is 0x00, 0xFF, 0x80, 0x01;
+      (c) every data row of the matrix all-ones / all-zero / alternating (both phases) in every combination for (68,28), one
+          row differing from the rest for (128,72); every data column set in all rows, and all but that column."""
+    k = CODES[code][0]
+    full = (1 << k) - 1
+    nbytes = (k + 7) // 8
+    rng = ctx.rng("accumulator", code)
+
+    def from_octets(octs):
+        return int.from_bytes(bytes(octs), "big") >> (8 * nbytes - k)
+
+    out = []
+    # (a)
+    for v in range(256):
+        out.append(from_octets([v] * nbytes))
+    special = [0x00, 0xFF, 0x1E, 0x1F, 0x3D, 0x3E, 0xF7, 0xF8, 0x80, 0x01, 0x7F, 0xFE]
+    pairs = [(a, b) for a in special for b in special if a != b] + [(rng.randrange(256), rng.randrange(256)) for _ in range(64)]
+    for a, b in pairs:
+        out.append(from_octets(([a, b] * nbytes)[:nbytes]))
+    # (b)
+    if code == "128_72":
+        by_res = {r: [v for v in range(256) if v % 31 == r] for r in range(31)}
+        for r in range(31):
+            out.append(from_octets([by_res[r][-1]] * 9))
+            out.append(from_octets([by_res[r][0]] * 9))
+            for _ in range(4):
+                out.append(from_octets([rng.choice(by_res[r]) for _ in range(9)]))
+        for hi, lo in ((30, 29), (0, 1)):
+            for mask in range(512):
+                out.append(from_octets([rng.choice(by_res[hi if (mask >> i) & 1 else lo]) for i in range(9)]))
+        for base in (31, 62, 93, 124, 155, 186, 217, 248):
+            for d in (-1, 0, 1):
+                if 0 <= base + d <= 255:
+                    out.append(from_octets([base + d] * 9))
+        for i in range(9):
+            for low in (0xFE, 0xF8, 0xF7, 0x00):
+                o = [0xFF] * 9
+                o[i] = low
+                out.append(from_octets(o))
+    elif code == "68_28":
+        for L in (8, 16, 20, 24):
+            for target in (0x00, 0xFF, 0x80, 0x01):
+                for _ in range(3):
+                    head = rng.getrandbits(L - 8) if L > 8 else 0
+                    for low in range(256):
+                        prefix = (head << 8) | low
+                        if bptc_ref.crc8(gf2.int_to_bits(prefix, L)) == target:
+                            break
+                    tail = rng.getrandbits(28 - L) if L < 28 else 0
+                    out += [(prefix << (28 - L)) | tail, prefix << (28 - L), (prefix << (28 - L)) | ((1 << (28 - L)) - 1)]
+    # (c)
+    rows = {"128_72": [11, 11, 10, 10, 10, 10, 10], "68_28": [12, 12, 4]}.get(code)
+    if rows:
+        def pat(n, kind):
+            return {"0": 0, "1": (1 << n) - 1, "a": int(("10" * n)[:n], 2), "5": int(("01" * n)[:n], 2)}[kind]
+
+        def from_rows(kinds):
+            v = 0
+            for n, kd in zip(rows, kinds):
+                v = (v << n) | pat(n, kd)
+            return v
+
+        import itertools
+
+        if code == "68_28":
+            combos = list(itertools.product("01a5", repeat=len(rows)))
+        else:
+            combos = [tuple(bg if i != j else fg for i in range(len(rows))) for bg in "01a5" for fg in "01a5" for j in range(len(rows))]
+        out += [from_rows(c) for c in combos]
+        width = max(rows)
+        for c in range(width):  # column c (from the left) set in every row that has it, and the complement
+            v = 0
+            for n in rows:
+                v = (v << n) | ((1 << (n - 1 - c)) if c < n else 0)
+            out += [v, full ^ v]
+    seen, uniq = set(), []
+    for v in out:
+        v &= full
+        if v not in seen:
+            seen.add(v)
+            uniq.append(v)
+    return uniq
+
+
 def _drv_sampled(code, n_quick, n_thorough, directed=None):
     def drv(ctx: Ctx, sub: SubCheck):
         _preimport()
@@ -552,6 +646,7 @@ def _drv_sampled(code, n_quick, n_thorough, directed=None):
 
         k = CODES[code][0]
         fixed = [("basis", v) for v in _basis(code)] + [("boundary", v) for v in _boundary(code, ctx)]
+        fixed += [("accumulator_extremes", v) for v in _accumulator_extremes(code, ctx)]
         if directed:
             fixed += [("directed", v) for v in directed(ctx, ctx.pick(25, 400))]
 
